@@ -284,9 +284,9 @@ func hC17Matrix() {
 	var extra []ServiceOption
 	var topts []TranscoderOption
 	services := []*Service{}
-	var lateBare *Service
+	var lateBare, sibling *Service
 	wantErr := true
-	class := verifChoose("class", 30)
+	class := verifChoose("class", 32)
 	switch class {
 	case 0: // valid baseline
 		wantErr = false
@@ -371,6 +371,17 @@ func hC17Matrix() {
 		default:
 			topts = append(topts, WithRules(bad, good))
 		}
+	case 30, 31: // a sibling service that takes its compression from the defaults, registered before (30) or after (31)
+		// this one, which switches compression off for itself: options of one service stay with that service
+		other := newFakeService("p.T")
+		other.addMethod("List", fkUnary, 0, false)
+		sibling = &Service{schema: other, handler: nopHandler(), opts: []ServiceOption{WithTypeResolver(&fakeResolver{}), WithTargetProtocols(ProtocolGRPC), WithTargetCodecs(CodecProto)}}
+		if class == 30 {
+			services = append(services, sibling)
+		} else {
+			lateBare = sibling
+		}
+		wantErr = false
 	case 15: // invalid template / blank pattern
 		if verifChoose("blank", 2) == 1 {
 			topts = append(topts, WithRules(&annotations.HttpRule{Selector: "p.S.Get", Pattern: &annotations.HttpRule_Get{Get: ""}}))
@@ -407,6 +418,15 @@ func hC17Matrix() {
 	_, hasProto := mc.codecNames[CodecProto]
 	verifAssert(hasProto && len(mc.codecNames) == 1 && mc.preferredCodec == CodecProto, "C17: per-service codecs override the transcoder-wide default")
 	verifAssert(mc.maxMsgBufferBytes == 7, "C17: defaults apply where the service sets nothing")
+	if sibling != nil {
+		sc := tr.methods["/p.T/List"]
+		verifAssert(sc != nil, "C17: the sibling's method is registered")
+		if sc != nil {
+			_, sibGzip := sc.compressorNames[CompressionGzip]
+			verifAssert(sibGzip, "C17: a service without a compression option of its own keeps the default compressions, whatever its siblings set for themselves")
+		}
+		verifAssert(len(mc.compressorNames) == 0, "C17: per-service WithNoTargetCompression applies to that service")
+	}
 	if class == 10 {
 		// the binding is reachable through the URL built from its template
 		target, vars, _ := tr.restRoutes.match("/v1/abc", "GET")
